@@ -39,6 +39,9 @@ def gen_program(rng):
                 shown.append("(newline)")
         elif rng.random() < 0.3:
             shown.append('(display "%s")' % rng.choice(["ok", "a b", "(", "x;y", "\u00e9t\u00e9", "\u03bb x", "\u4e2d\u6587", "a\U0001f600b", "na\u00efve (caf\u00e9)"]))
+        if rng.random() < 0.25:
+            # a string literal that spans several lines (raw line breaks inside the quotes): what follows is still on ITS line
+            shown.append(rng.choice(['(display "two\nlines")', '(define ml-zz "a\n\nb\nc")', '(display (if (string? "x\ny") 1 2))']))
         if rng.random() < 0.1:
             # characters outside ASCII in the program text: a file is its characters, not its bytes
             shown.append(rng.choice(["(display #\\\u03bb)", "(display (list #\\\u00e9 #\\\u4e2d))", '(display (string? "\u00fc"))', '(display (list "\u00e9" #\\x e9 "\U0001f600"))'.replace("x e9", "xe9")]))
@@ -57,6 +60,11 @@ def gen_program(rng):
     # the file may BEGIN with blank lines, indentation or a comment line: positions are positions in the file as it is
     lead = rng.choice(["", "", "", "\n", "\n\n\n", "    ", "\r\n\r\n", " \n\t", "; a first line\n", "\n  ; indented comment\n\n"])
     text = lead + sep.join(forms) + rng.choice(["", "\n", "\r\n"])
+    if fault is not None:
+        # the lines the failing form occupies in the file, counted in the text itself
+        off = len(lead) + sum(len(f) + len(sep) for f in forms[:fault[0]])
+        first = 1 + text[:off].count("\n")
+        fault = (fault[0], fault[1], first, first + forms[fault[0]].count("\n"))
     return forms, text, fault
 
 
@@ -103,6 +111,12 @@ def run(rep, tier, rng):
                 rest = lines[0].strip()[len(path):]
                 kind, loc = lib_res.split(" ")[1], lib_res.split(" ")[2]
                 if loc != "-" and not rest.startswith(":" + loc + " "): problems.append("diagnostic location is not FILE:%s" % loc)
+                if fault is not None and len(fault) == 4 and fault[1] != "syntax" and rest.startswith(":") and rest[1:].split(":")[0].isdigit():
+                    line = int(rest[1:].split(":")[0])
+                    # an unbound variable / non-procedure may be reported at the identifier inside an EARLIER form's procedure; everything
+                    # else lies in the failing form; nothing lies after it
+                    if line > fault[3] or (line < fault[2] and kind not in ("unbound", "nonProcedure")):
+                        problems.append("the diagnostic's line %d is not a line of the failing form (lines %d-%d of the file)" % (line, fault[2], fault[3]))
                 # MESSAGE = the Display of the error the library interface returns for the same text (compared with what this
                 # very build prints in process, so rewording a message is not an alarm)
                 lib_msg = next((x[2:] for x in li if x.startswith("M ")), None)
